@@ -45,9 +45,30 @@ def main(ck, pid, cfg, tier, seed, replay):
             build_fail = 'case generation (python3-vt + jsonschema) failed: ' + cases.stderr[-1500:]
         else:
             open(base + '.cases', 'w').write(cases.stdout)
-            with open(base + '.cases') as cf, open(base + '.verdicts', 'w') as vf:
-                subprocess.run([ck.DRIVER], stdin=cf, stdout=vf, timeout=3600)
+            ck.drive(base + '.cases', base + '.verdicts', 3600)
             ck.tally(base + '.cases', base + '.verdicts', stats, failures, seen, samples, 'schema')
+    # the same schema must come out of a build with scale-info's bit-vec feature on (registries with bit sequences are legal either way)
+    if not build_fail:
+        with ck.Lock('sch'):
+            r2 = ck.sh(['cargo', 'build', '--offline', '--quiet', '--features', 'bitvec'], cwd=SCH_DIR, timeout=3600,
+                       env=dict(ck.ENV, CARGO_TARGET_DIR=os.path.join(ck.BUILD, 'sch-bv')))
+        SCH_BV = os.path.join(ck.BUILD, 'sch-bv', 'debug', 'sch')
+        if r2.returncode != 0:
+            failures.append(dict(stream='schema', kind='BUILD', case='', detail='schema harness does not build with bit-vec on: ' + r2.stdout[-1500:]))
+        else:
+            out2 = subprocess.run([SCH_BV, 'schema'], stdout=subprocess.PIPE, text=True)
+            if out2.returncode == 0 and json.loads(out2.stdout) != json.load(open(schema_file)):
+                schema_bv = os.path.join(ck.BUILD, 'run', 'schema.bv.json')
+                open(schema_bv, 'w').write(out2.stdout)
+                failures.append(dict(stream='schema', kind='DIFF', case='', detail='the generated schema depends on the bit-vec feature of scale-info (schema.json vs schema.bv.json under .build/run)'))
+                docs2 = subprocess.run([SCH_BV, 'docs', '--seed', str(seed), '--n', str(cfg['n'][tier])], stdout=subprocess.PIPE, text=True)
+                cases2 = subprocess.run(['python3-vt', os.path.join(ck.VERIF, 'checks', 'c19_cases.py'), schema_bv, str(seed), '0'],
+                                        input=docs2.stdout, stdout=subprocess.PIPE, stderr=subprocess.PIPE, text=True)
+                if cases2.returncode == 0:
+                    base2 = os.path.join(ck.BUILD, 'run', f'{pid}.schema.{tier}.bv')
+                    open(base2 + '.cases', 'w').write(cases2.stdout)
+                    ck.drive(base2 + '.cases', base2 + '.verdicts', 3600)
+                    ck.tally(base2 + '.cases', base2 + '.verdicts', stats, failures, seen, samples, 'schema')
     ck.finish(pid, cfg, tier, seed, t0, lean, build_fail, failures, stats, seen, samples,
               extra_cov=dict(schema_definitions=len(json.load(open(schema_file)).get('definitions', {})) if os.path.exists(schema_file) else 0,
                              reference_validator='python jsonschema (Draft7Validator) on the real schema'))
